@@ -222,6 +222,9 @@ def main(argv=None):
             lines.append(f"INCONCLUSIVE property={prop} reason=deciding monitor not reached: {missing_obs}")
         if not results:
             lines.append(f"INCONCLUSIVE property={prop} reason=no case produced a result")
+    if status == 1:
+        for cid, h in harness[:3]:
+            lines.append(f"note: harness error in case {cid}: {h[-700:]}")
     for cid, why in inconcl[:10]:
         lines.append(f"note: case {cid} inconclusive: {why}")
 
